@@ -301,6 +301,9 @@ def F16():
     got = [p.fields["a"] for p in db.all()]
     if got != [1, 2]:
         return f"update_all whose callable raised on the 2nd point left {got}, expected [1, 2]"
+
+
+def F16b():
     db = mem()
     p = Point(time=t(0), fields={"a": 1})
     db.insert(p)
